@@ -108,9 +108,18 @@ def _lean_phase(ctx):
                 return
             ctx.extra["call_tie_os_calls"] = info.get("osCalls")
             ctx.extra["call_tie_file_calls"] = info.get("fileCalls")
-            ctx.extra["call_tie_open_flags"] = info.get("openFlags")
-            ctx.rules.append("call-inventory tie: the %d functions of package os, the %d methods of *os.File and the flags of "
-                             "os.OpenFile that package rotation uses, read from the syntax of the working tree; %s decides "
+            ctx.extra["call_tie_open_flag_values"] = info.get("openFlagBits")
+            ctx.extra["call_tie_os_constants"] = info.get("osConst")
+            ctx.extra["call_tie_reachable_functions"] = info.get("reachable")
+            ctx.extra["call_tie_complete"] = info.get("complete")
+            # facts the extractor could not establish: the statements about them are vacuous (less coverage, no alarm)
+            ctx.extra["call_tie_unresolved"] = info.get("unresolved") or []
+            if info.get("unresolved"):
+                ctx.assumptions.append("call-inventory tie incomplete in this working tree (statements about the "
+                                       "unresolved facts are vacuous): " + "; ".join(info.get("unresolved")))
+            ctx.rules.append("call-inventory tie: the %d functions of package os and the %d methods of os.File referenced in "
+                             "the code reachable from the methods of the Rotator (type-checked: resolved objects, through "
+                             "helpers) and the VALUES of the os.OpenFile flag arguments (constant evaluation); %s decides "
                              "that they are the calls of the model Rot.Sys" % (
                                  len(info.get("osCalls") or []), len(info.get("fileCalls") or []), CALLS_MODULE))
             nt, npb, ncmd = len(ctx.theorems), len(ctx.lean_problems), len(ctx.checker_cmds)
@@ -125,9 +134,9 @@ def _lean_phase(ctx):
             if not any(p.startswith("lake build failed") for p in ctx.lean_problems[npb:]):
                 ctx.lean_problems.append(
                     "call-inventory tie lost: %s does not check against the calls read from the working tree "
-                    "(os: %s; *os.File: %s; OpenFile flags: %s) — the model Rot.Sys quantifies over MkdirAll, Stat, OpenFile, "
+                    "(os: %s; os.File: %s; OpenFile flag values: %s) — the model Rot.Sys quantifies over MkdirAll, Stat, OpenFile, "
                     "Remove, Rename, and Close/Sync/Write (Stat) on the descriptor, opened O_APPEND|O_CREATE without O_TRUNC"
-                    % (CALLS_MODULE, info.get("osCalls"), info.get("fileCalls"), info.get("openFlags")))
+                    % (CALLS_MODULE, info.get("osCalls"), info.get("fileCalls"), info.get("openFlagBits")))
             fail_all()
         finally:
             if ctx.repo != "/repo" and os.path.isdir("/repo/log/rotation"):
